@@ -113,6 +113,8 @@ def nt_path(case):
 # ---------------------------------------------------------------------------- refusal
 def check_refusal(case, ctx):
     p = case["parent"]
+    if p["depth"] + len(case["prefix"]) > 255:
+        case = dict(case, prefix=list(case["prefix"])[: 255 - p["depth"]])
     prv, pubs = pub_parents(p)
     path = list(case["prefix"]) + [case["hard"]] + list(case["suffix"])
     # the private twin derives the very same hardened child first (same process)
@@ -183,7 +185,8 @@ def clauses():
                "prefix: ckd / derive_path / generate_children on public-only nodes must raise and record no child; "
                "every case is non-trivial",
                gen=lambda tier: st.fixed_dictionaries({
-                   "parent": parents().map(lambda d: dict(d, depth=min(d["depth"], 250))),
+                   "parent": st.one_of(parents(), parents().map(lambda d: dict(d, depth=255, index=d["index"] or 1,
+                                                                                   pfp=d["pfp"] if d["depth"] else b"\x01\x02\x03\x04"))),
                    "prefix": st.lists(S.normal_indexes(), max_size=2),
                    "hard": S.hardened_indexes(), "suffix": st.lists(S.normal_indexes(), max_size=2)}),
                classes=lambda c: ["boundary" if c["hard"] in (H, H + 1, 2 ** 32 - 1) else "uniform"],
